@@ -53,10 +53,16 @@ type towerPkg struct {
 	tower    string   // name of the tower package whose translated structures / methods are reused ("" = none)
 	towerDir string   // its directory (import path suffix)
 	files    []string // only these files of dir (nil = all)
+	// pairing packages (step functions / final exponentiation of pairing.go, Gen/Pairing): same Go package as the curve
+	// package `name` (its parent), which in turn may reuse the tower package `tower`
+	pairing bool
 }
 
 func (c towerPkg) sub() string {
-	if c.curve {
+	switch {
+	case c.pairing:
+		return "Pairing"
+	case c.curve:
 		return "Curve"
 	}
 	return "Tower"
@@ -101,6 +107,23 @@ var curvePkgs = []towerPkg{
 	teCurve("te_bw6_633", "bw6-633/twistededwards"),
 }
 
+// pairing step functions and final exponentiation (pairing.go of the curve package of the same name)
+func pairingPkg(name, dir, tower string) towerPkg {
+	c := towerPkg{name: name, dir: "ecc/" + dir, baseDir: "ecc/" + dir + "/fp", curve: true, pairing: true, tower: tower, files: []string{"pairing.go"}}
+	if tower != "" {
+		c.towerDir = "ecc/" + dir + "/internal/fptower"
+	}
+	return c
+}
+
+var pairingPkgs = []towerPkg{
+	pairingPkg("bn254", "bn254", "bn254"),
+	pairingPkg("bls12_381", "bls12-381", "bls12_381"),
+	pairingPkg("bls12_377", "bls12-377", "bls12_377"),
+	pairingPkg("bls24_315", "bls24-315", "bls24_315"),
+	pairingPkg("bls24_317", "bls24-317", "bls24_317"),
+}
+
 var towerPkgs = []towerPkg{
 	{name: "bn254", dir: "ecc/bn254/internal/fptower", baseDir: "ecc/bn254/fp", baseFiles: nil},
 	{name: "bls12_381", dir: "ecc/bls12-381/internal/fptower", baseDir: "ecc/bls12-381/fp", baseFiles: nil},
@@ -141,6 +164,7 @@ type typ struct {
 	base   bool
 	name   string // Lean structure name (E2, Arr5)
 	arr    bool
+	list   bool // variadic / slice parameter of pointers to ftypes[0] (read-only): a Lean List
 	fields []string
 	ftypes []*typ
 }
@@ -149,6 +173,8 @@ func (t *typ) lean() string {
 	switch {
 	case t.base:
 		return "F"
+	case t.list:
+		return "(List " + t.ftypes[0].lean() + ")"
 	case t.arr:
 		return "(" + t.name + " " + t.ftypes[0].lean() + ")"
 	}
@@ -225,6 +251,8 @@ type pkgCtx struct {
 	baseQual   map[*ast.File]string
 	fileOf     map[*ast.FuncDecl]*ast.File
 	structs    map[string]*typ
+	aliases    map[string]ast.Expr // type aliases `type GT = fptower.E12`
+	aliasFile  map[string]*ast.File
 	arrays     map[string]*typ
 	funcs      map[string]*fn
 	fnOrder    []string
@@ -247,8 +275,10 @@ type variant struct {
 	inUsed   []bool
 	written  []bool
 	gparams  []string // globals that are parameters (not literal), transitive
-	retRoot  int      // index into roots of the returned pointer, -1 if none
-	fresh    bool     // returns a pointer to a fresh cell: modelled as a value result of type ret
+	oparams  []string // opaque functions (pairing packages only): untranslatable callees that are parameters of the def
+	otypes   map[string]string
+	retRoot  int  // index into roots of the returned pointer, -1 if none
+	fresh    bool // returns a pointer to a fresh cell: modelled as a value result of type ret
 	ret      *typ
 	classes  map[string]bool
 	body     *code
@@ -292,7 +322,7 @@ func buildOK(f *ast.File, fname string) bool {
 func loadPkg(cfg towerPkg, parent *pkgCtx) *pkgCtx {
 	p := &pkgCtx{cfg: cfg, parent: parent, towerQual: map[*ast.File]string{}, onceVars: map[string]bool{}, fc: extractField(cfg.baseDir), baseQual: map[*ast.File]string{}, fileOf: map[*ast.FuncDecl]*ast.File{},
 		structs: map[string]*typ{}, arrays: map[string]*typ{}, funcs: map[string]*fn{}, globals: map[string]*global{},
-		variants: map[string]*variant{}, constSet: map[string]bool{}}
+		variants: map[string]*variant{}, constSet: map[string]bool{}, aliases: map[string]ast.Expr{}, aliasFile: map[string]*ast.File{}}
 	fset := token.NewFileSet()
 	var files []*ast.File
 	inBase := map[*ast.File]bool{}
@@ -334,6 +364,22 @@ func loadPkg(cfg towerPkg, parent *pkgCtx) *pkgCtx {
 		}
 		if keep {
 			load(n, false)
+		}
+	}
+	// pass 0: type aliases (`type GT = fptower.E12`)
+	for _, f := range files {
+		if inBase[f] {
+			continue
+		}
+		for _, d := range f.Decls {
+			if gd, ok := d.(*ast.GenDecl); ok && gd.Tok == token.TYPE {
+				for _, sp := range gd.Specs {
+					if ts := sp.(*ast.TypeSpec); ts.Assign.IsValid() {
+						p.aliases[ts.Name.Name] = ts.Type
+						p.aliasFile[ts.Name.Name] = f
+					}
+				}
+			}
 		}
 	}
 	// pass 1: struct types whose fields are all field-like (iterate to a fixed point: order of declaration is free)
@@ -588,13 +634,35 @@ func (p *pkgCtx) typeOf(f *ast.File, inBase bool, e ast.Expr) (*typ, bool, bool)
 		if t := p.structs[x.Name]; t != nil && !inBase {
 			return t, false, false
 		}
+		if !inBase {
+			// structures / aliases of an ancestor that is the SAME Go package (pairing.go over g2.go), own aliases
+			for q := p; q != nil && q.cfg.dir == p.cfg.dir; q = q.parent {
+				if t := q.structs[x.Name]; t != nil {
+					return t, false, false
+				}
+				if a := q.aliases[x.Name]; a != nil {
+					return q.typeOf(q.aliasFile[x.Name], false, a)
+				}
+			}
+		}
+	case *ast.Ellipsis:
+		et, ptr, _ := p.typeOf(f, inBase, x.Elt)
+		if et == nil || !ptr || inBase {
+			return nil, false, false
+		}
+		return &typ{list: true, name: "List", ftypes: []*typ{et}}, false, false
 	case *ast.SelectorExpr:
 		if id, ok := x.X.(*ast.Ident); ok && id.Name == p.baseQual[f] && x.Sel.Name == "Element" && !inBase {
 			return baseT, false, false
 		}
 		if id, ok := x.X.(*ast.Ident); ok && p.parent != nil && p.towerQual[f] != "" && id.Name == p.towerQual[f] && !inBase {
-			if t := p.parent.structs[x.Sel.Name]; t != nil {
-				return t, false, false
+			for q := p.parent; q != nil; q = q.parent {
+				if q.cfg.dir != p.cfg.towerDir {
+					continue
+				}
+				if t := q.structs[x.Sel.Name]; t != nil {
+					return t, false, false
+				}
 			}
 		}
 	case *ast.ArrayType:
@@ -815,7 +883,8 @@ type tr struct {
 	out       *code           // block under construction
 	gp        map[string]bool
 	anon      int
-	ints      map[string]bool // int parameters (loop bounds)
+	op        map[string]string // opaque function parameters used: Lean name -> Lean type
+	ints      map[string]bool   // int parameters (loop bounds)
 	paramRoot map[string]bool
 	loop      int // > 0 inside a loop body
 }
@@ -914,7 +983,24 @@ func (x *tr) locName(s *state, l loc) string {
 	return n
 }
 
+// Go identifiers may contain letters that are Lean keywords or not identifier characters (λ)
+func leanIdent(n string) string {
+	var b strings.Builder
+	for _, r := range n {
+		switch {
+		case r == 'λ':
+			b.WriteString("lam")
+		case r < 128:
+			b.WriteRune(r)
+		default:
+			fmt.Fprintf(&b, "u%x", r)
+		}
+	}
+	return b.String()
+}
+
 func (x *tr) fresh(base string) string {
+	base = leanIdent(base)
 	x.ctr[base]++
 	return fmt.Sprintf("%s_%d", base, x.ctr[base])
 }
@@ -1439,8 +1525,33 @@ func (x *tr) callFn(s *state, f *fn, owner *pkgCtx, key string, recv *loc, c *as
 		}
 	}
 	cv := owner.translate(f, pat)
+	if cv.err != "" && x.p.cfg.pairing && opaqueName(key) && recv != nil && f.kind == kProc {
+		// OPAQUE callee (pairing packages only, fixed exponentiations `Expt*` of the tower whose body leaves the subset:
+		// Karabina batch decompression): `z.Expt(&x)` is modelled as `z := opq_E12_Expt x` with `opq_E12_Expt` a PARAMETER
+		// of the def. Assumed, not checked: the callee writes only its receiver and the new value is a function of the
+		// pointed-to arguments alone (K: C06 `exp` ops, C18/C19 purity).
+		name := "opq_" + strings.ReplaceAll(key, ".", "_")
+		var at []string
+		parts := []string{name}
+		for i := 1; i < len(f.pos); i++ {
+			if locs[i] == nil {
+				reject("call of %s: %s (opaque calls take pointer arguments only)", cv.name, cv.err)
+			}
+			at = append(at, f.pos[i].t.lean())
+			parts = append(parts, x.read(get(s.cells[locs[i].root], locs[i].path)))
+		}
+		if len(at) == 0 {
+			reject("call of %s: %s", cv.name, cv.err)
+		}
+		x.op[name] = strings.Join(append(at, f.pos[0].t.lean()), " → ")
+		x.def(s, *recv, strings.Join(parts, " "))
+		return recv, nil, ""
+	}
 	if cv.err != "" {
 		reject("call of %s: %s", cv.name, cv.err)
+	}
+	if len(cv.oparams) > 0 {
+		reject("call of %s, which has opaque function parameters", cv.name)
 	}
 	for k := range cv.classes {
 		x.need(k)
@@ -1545,6 +1656,12 @@ func (x *tr) callFn(s *state, f *fn, owner *pkgCtx, key string, recv *loc, c *as
 	return nil, nil, ""
 }
 
+// callees that a pairing package may treat as opaque functions (see callFn)
+func opaqueName(key string) bool {
+	i := strings.Index(key, ".")
+	return i > 0 && strings.HasPrefix(key[:i], "E") && strings.HasPrefix(key[i+1:], "Expt")
+}
+
 // ---- statements
 
 func (x *tr) block(s *state, stmts []ast.Stmt) {
@@ -1624,7 +1741,9 @@ func (x *tr) block(s *state, stmts []ast.Stmt) {
 			x.block(s2, append(append([]ast.Stmt(nil), eb...), rest...))
 			return
 		case *ast.ForStmt:
-			x.loopStmt(s, st)
+			x.loopStmt(s, st, nil)
+		case *ast.RangeStmt:
+			x.loopStmt(s, nil, st)
 		default:
 			reject("unsupported statement %T", st)
 		}
@@ -1636,36 +1755,69 @@ func (x *tr) block(s *state, stmts []ast.Stmt) {
 
 // `for i := 0; i < N; i++ { straight-line body not mentioning i }` with N a literal or an int parameter:
 // Nat.repeat of the body over the tuple of the roots the body writes.
-func (x *tr) loopStmt(s *state, st *ast.ForStmt) {
-	var iv string
-	if as, ok := st.Init.(*ast.AssignStmt); ok && as.Tok == token.DEFINE && len(as.Lhs) == 1 && litInt(as.Rhs[0]) != nil && litInt(as.Rhs[0]).Sign() == 0 {
-		iv = as.Lhs[0].(*ast.Ident).Name
-	}
-	cnd, _ := st.Cond.(*ast.BinaryExpr)
-	inc, _ := st.Post.(*ast.IncDecStmt)
-	if iv == "" || cnd == nil || cnd.Op != token.LSS || exprStr(cnd.X) != iv || inc == nil || inc.Tok != token.INC || exprStr(inc.X) != iv {
-		reject("unsupported loop header")
-	}
-	var bound string
-	if n := litInt(cnd.Y); n != nil {
-		bound = n.String()
-	} else if id, ok := cnd.Y.(*ast.Ident); ok && x.ints[id.Name] {
-		bound = id.Name
-		x.used[id.Name] = true
-	} else {
-		reject("loop bound is neither a literal nor an int parameter")
-	}
-	ast.Inspect(st.Body, func(n ast.Node) bool {
-		if id, ok := n.(*ast.Ident); ok && id.Name == iv {
-			reject("loop body uses the loop variable")
+//
+// `for _, e := range zs { straight-line body reading *e }` with zs a list parameter (variadic `...*T`): List.foldl of the
+// body over the tuple of the roots the body writes; the element cell `e` is read-only.
+func (x *tr) loopStmt(s *state, st *ast.ForStmt, rs *ast.RangeStmt) {
+	var bound, elem, listTerm string
+	var bodyStmt *ast.BlockStmt
+	if rs != nil {
+		bodyStmt = rs.Body
+		if k, ok := rs.Key.(*ast.Ident); rs.Key != nil && (!ok || k.Name != "_") {
+			reject("range loop with an index variable")
 		}
-		return true
-	})
+		ev, ok := rs.Value.(*ast.Ident)
+		lid, ok2 := rs.X.(*ast.Ident)
+		if !ok || !ok2 || rs.Tok != token.DEFINE || ev.Name == "_" {
+			reject("unsupported range loop header")
+		}
+		lc, isCell := s.cells[lid.Name]
+		if !isCell || !lc.t.list || lc.origin != lid.Name {
+			reject("range over %s, which is not a list parameter", lid.Name)
+		}
+		x.used[lid.Name] = true
+		elem, listTerm = ev.Name, lid.Name
+		// the element: a pointer to a read-only cell named after the loop variable
+		x.newRoot(s, "elem:"+elem, &val{t: lc.t.ftypes[0], term: elem})
+		if _, dup := s.cells[elem]; dup {
+			reject("redeclaration of %s", elem)
+		}
+		s.ptrs[elem] = loc{root: "elem:" + elem}
+		defer func() {
+			delete(s.ptrs, elem)
+			delete(s.cells, "elem:"+elem)
+		}()
+	} else {
+		bodyStmt = st.Body
+		var iv string
+		if as, ok := st.Init.(*ast.AssignStmt); ok && as.Tok == token.DEFINE && len(as.Lhs) == 1 && litInt(as.Rhs[0]) != nil && litInt(as.Rhs[0]).Sign() == 0 {
+			iv = as.Lhs[0].(*ast.Ident).Name
+		}
+		cnd, _ := st.Cond.(*ast.BinaryExpr)
+		inc, _ := st.Post.(*ast.IncDecStmt)
+		if iv == "" || cnd == nil || cnd.Op != token.LSS || exprStr(cnd.X) != iv || inc == nil || inc.Tok != token.INC || exprStr(inc.X) != iv {
+			reject("unsupported loop header")
+		}
+		if n := litInt(cnd.Y); n != nil {
+			bound = n.String()
+		} else if id, ok := cnd.Y.(*ast.Ident); ok && x.ints[id.Name] {
+			bound = id.Name
+			x.used[id.Name] = true
+		} else {
+			reject("loop bound is neither a literal nor an int parameter")
+		}
+		ast.Inspect(st.Body, func(n ast.Node) bool {
+			if id, ok := n.(*ast.Ident); ok && id.Name == iv {
+				reject("loop body uses the loop variable")
+			}
+			return true
+		})
+	}
 	run := func(s0 *state) *code {
 		saved := x.out
 		x.out = &code{}
 		x.loop++
-		x.block(s0, st.Body.List)
+		x.block(s0, bodyStmt.List)
 		x.loop--
 		c := x.out
 		x.out = saved
@@ -1689,6 +1841,11 @@ func (x *tr) loopStmt(s *state, st *ast.ForStmt) {
 		}
 	}
 	sort.Strings(w)
+	for _, r := range w {
+		if strings.HasPrefix(r, "elem:") {
+			reject("range loop body writes through the element pointer")
+		}
+	}
 	if len(w) == 0 {
 		return
 	}
@@ -1710,7 +1867,11 @@ func (x *tr) loopStmt(s *state, st *ast.ForStmt) {
 		return "(" + strings.Join(xs, ", ") + ")"
 	}
 	name := x.fresh("loop")
-	x.emit(name, "Nat.repeat (fun st =>\n    "+strings.Join(append(body.lines, tuple(res)), "\n    ")+") "+bound+" "+tuple(init))
+	if rs != nil {
+		x.emit(name, "List.foldl (fun st "+elem+" =>\n    "+strings.Join(append(body.lines, tuple(res)), "\n    ")+") "+tuple(init)+" "+listTerm)
+	} else {
+		x.emit(name, "Nat.repeat (fun st =>\n    "+strings.Join(append(body.lines, tuple(res)), "\n    ")+") "+bound+" "+tuple(init))
+	}
 	for i, r := range w {
 		s.cells[r] = &val{t: s.cells[r].t, term: name + proj(i, len(w))}
 		x.wr[r] = true
@@ -1871,7 +2032,7 @@ func (p *pkgCtx) translate(f *fn, pat []int) *variant {
 		v.rtypes = append(v.rtypes, q.t)
 		v.isPtr = append(v.isPtr, q.ptr)
 	}
-	x := &tr{p: p, v: v, file: p.fileOf[f.decl], ints: map[string]bool{}, paramRoot: map[string]bool{}, ctr: map[string]int{}, used: map[string]bool{}, wr: map[string]bool{}, gp: map[string]bool{}, out: &code{}}
+	x := &tr{p: p, v: v, file: p.fileOf[f.decl], ints: map[string]bool{}, paramRoot: map[string]bool{}, ctr: map[string]int{}, used: map[string]bool{}, wr: map[string]bool{}, gp: map[string]bool{}, op: map[string]string{}, out: &code{}}
 	v.body = x.out
 	func() {
 		defer func() {
@@ -1912,6 +2073,11 @@ func (p *pkgCtx) translate(f *fn, pat []int) *variant {
 		v.gparams = append(v.gparams, g)
 	}
 	sort.Strings(v.gparams)
+	v.otypes = x.op
+	for o := range x.op {
+		v.oparams = append(v.oparams, o)
+	}
+	sort.Strings(v.oparams)
 	v.busy = false
 	if v.err == "" {
 		p.order = append(p.order, v)
@@ -2013,6 +2179,9 @@ func (v *variant) binders(p *pkgCtx) string {
 		gl, _ := p.global(g)
 		fmt.Fprintf(&b, " (%s : %s)", g, gl.t.lean())
 	}
+	for _, o := range v.oparams {
+		fmt.Fprintf(&b, " (%s : %s)", o, v.otypes[o])
+	}
 	return b.String()
 }
 
@@ -2051,12 +2220,20 @@ func (p *pkgCtx) emit() {
 	imp, open := "", ""
 	if p.parent != nil {
 		imp = "import GnarkVerif.Gen." + p.parent.cfg.sub() + "." + modName(p.parent.cfg.name) + "\n"
-		open = "open " + p.parent.cfg.ns() + "\n"
+		for q := p.parent; q != nil; q = q.parent {
+			open += "open " + q.cfg.ns() + "\n"
+		}
 	}
 	fmt.Fprintf(&b, "%s/- GENERATED by tools/goslp (slp.go) from /repo/%s on every run. DO NOT EDIT.\n   One def per (function, alias pattern); see Gen/%s/summary.json for what was not translatable. -/\nset_option linter.unusedVariables false\nnamespace %s\n%s\n", imp, p.cfg.dir, p.cfg.sub(), p.cfg.ns(), open)
 	// array structures, then the package's structures in dependency order
 	var ak []string
 	sizes := map[string]bool{}
+	for q := p.parent; q != nil && p.cfg.pairing; q = q.parent {
+		// array structures declared by an ancestor are reused (the ancestors' namespaces are open)
+		for _, t := range q.arrays {
+			sizes[t.name] = true
+		}
+	}
 	for _, t := range p.arrays {
 		if !sizes[t.name] {
 			sizes[t.name] = true
@@ -2075,13 +2252,18 @@ func (p *pkgCtx) emit() {
 	done := map[string]bool{}
 	var emitT func(t *typ)
 	emitT = func(t *typ) {
-		if t.base || done[t.name] || (p.parent != nil && p.parent.structs[t.name] == t) {
+		for q := p.parent; q != nil; q = q.parent {
+			if q.structs[t.name] == t {
+				return
+			}
+		}
+		if t.base || done[t.name] {
 			return
 		}
 		for _, ft := range t.ftypes {
 			emitT(ft)
 		}
-		if t.arr {
+		if t.arr || t.list {
 			return
 		}
 		done[t.name] = true
@@ -2419,6 +2601,7 @@ func runSLP() {
 		Ambiguous    int               `json:"alias_ambiguous"`
 		BoolAlias    int               `json:"bool_alias_theorems"`
 		ReducedAlias []string          `json:"alias_patterns_reduced"`
+		Opaque       map[string]string `json:"opaque_callees,omitempty"`
 		KnownAlias   []string          `json:"alias_known_findings"`
 	}
 	summary := map[string]*pkgSummary{}
@@ -2433,6 +2616,7 @@ func runSLP() {
 	var ops strings.Builder
 	curveSummary := map[string]*pkgSummary{}
 	// translate every function of a loaded package under every alias pattern
+	pairingSummary := map[string]*pkgSummary{}
 	process := func(p *pkgCtx, label string) *pkgSummary {
 		ps := &pkgSummary{Untranslated: map[string]string{}}
 		for _, k := range p.fnOrder {
@@ -2452,6 +2636,9 @@ func runSLP() {
 			if reduced {
 				ps.ReducedAlias = append(ps.ReducedAlias, k)
 			}
+			if p.cfg.pairing {
+				continue // step functions: the non-aliased pattern only
+			}
 			for _, pat := range parts[1:] {
 				if reduced && !mergesWritten(base, pat) {
 					continue
@@ -2465,11 +2652,21 @@ func runSLP() {
 	}
 	finish := func(p *pkgCtx, ps *pkgSummary, label string) {
 		p.emit()
-		ps.AliasThms, ps.FrameThms, ps.Ambiguous = p.emitAlias()
+		if !p.cfg.pairing {
+			ps.AliasThms, ps.FrameThms, ps.Ambiguous = p.emitAlias()
+		}
 		if !p.cfg.curve {
 			p.emitExec(&ops)
 		}
 		ps.Variants = len(p.order)
+		for _, v := range p.order {
+			for _, o := range v.oparams {
+				if ps.Opaque == nil {
+					ps.Opaque = map[string]string{}
+				}
+				ps.Opaque[v.name+": "+o] = v.otypes[o]
+			}
+		}
 		ps.BoolAlias = p.nBoolAlias
 		ps.KnownAlias = p.known
 		fmt.Fprintf(os.Stderr, "gvgoslp: %-22s %3d functions translated (%d defs), %d untranslatable\n", label, len(ps.Translated), ps.Variants, len(ps.Untranslated))
@@ -2486,6 +2683,17 @@ func runSLP() {
 			label := "curve/" + cc.name
 			cs := process(cp, label)
 			curveSummary[cc.name] = cs
+			// the pairing package over this curve package first: it may instantiate further alias patterns
+			for _, pc := range pairingPkgs {
+				if pc.name != cc.name {
+					continue
+				}
+				pp := loadPkg(pc, cp)
+				plabel := "pairing/" + pc.name
+				pps := process(pp, plabel)
+				pairingSummary[pc.name] = pps
+				finish(pp, pps, plabel)
+			}
 			finish(cp, cs, label)
 		}
 	}
@@ -2509,6 +2717,8 @@ func runSLP() {
 	writeFile("Tower/summary.json", string(js)+"\n")
 	js, _ = json.MarshalIndent(curveSummary, "", " ")
 	writeFile("Curve/summary.json", string(js)+"\n")
+	js, _ = json.MarshalIndent(pairingSummary, "", " ")
+	writeFile("Pairing/summary.json", string(js)+"\n")
 	un := map[string]map[string]string{}
 	for k, v := range summary {
 		un[k] = v.Untranslated
